@@ -177,7 +177,8 @@ def run(ctx, res):
     # ------------------------------------------------------------ L1
     words = []
     for k in range(1, maxk + 1):
-        for t in itertools.product(segs, repeat=k):
+        # thorough: length 4 over the quick segment kinds only (21^4 words x 10 environments is out of budget)
+        for t in itertools.product(segs if k <= 3 else SEGS_Q, repeat=k):
             words.append("".join(t))
     for _ in range(6000 if ctx.thorough else 1500):
         words.append("".join(rng.choice(SEGS_T) for _ in range(rng.randint(4, 6))))
@@ -185,7 +186,7 @@ def run(ctx, res):
     cases = []  # (word, env index, tag)
     for w in words:
         for ei in range(len(ENVS)):
-            if len(w) > 6 and rng.random() < 0.5:
+            if len(w) > 6 and rng.random() < (0.7 if ctx.thorough else 0.5):
                 continue
             cases.append((w, ei, rng.choice(["", "", '"'])))
     for w in rng.sample(words, min(len(words), 400)):
